@@ -90,6 +90,56 @@ func runC15(c *Ctx) {
 		}
 	})
 
+	c.rule("C15.B2", "a confirmation takes effect before MarkAsConfirmed returns: confChan is unbuffered (the hand-off is a rendezvous with the handler) and the handler removes the transaction from the pending set in the very arm that receives it; with a buffered channel a rebroadcast started after MarkAsConfirmed returned could still contain the transaction", func() {
+		nb := c.fn("pushtx.NewBroadcaster")
+		okCap, n := true, 0
+		for _, st := range find(nb, storeToField(bf("confChan"))) {
+			mk, ok := st.(*ssa.Store).Val.(*ssa.MakeChan)
+			if !ok {
+				okCap = false
+				continue
+			}
+			n++
+			if k, isC := ir.ConstInt(mk.Size); !isC || k != 0 {
+				okCap = false
+			}
+		}
+		c.verdict(okCap && n == 1, c.nm(nb)+" | confChan is unbuffered", c.P.Pos(nb.Pos()), "make(chan chainhash.Hash)", "confChan is buffered (or not allocated here): MarkAsConfirmed can return before the handler has removed the transaction, so a later rebroadcast may still include it")
+		c.whoMay("store to Broadcaster.confChan", storeToField(bf("confChan")), []string{"pushtx.NewBroadcaster"}, 1)
+		// the receiving arm deletes directly
+		fn := c.fn(fnBHandler)
+		okDel := false
+		ir.Instrs(fn, func(in ssa.Instruction) {
+			sel, ok := in.(*ssa.Select)
+			if !ok || !selectHasRecv(sel, loadsField(bf("confChan"))) {
+				return
+			}
+			for i, st := range sel.States {
+				if st.Dir != types.RecvOnly || !loadsField(bf("confChan"))(st.Chan) {
+					continue
+				}
+				for _, r := range ir.Refs(sel) {
+					e, ok := r.(*ssa.Extract)
+					if !ok || e.Index != 0 {
+						continue
+					}
+					for _, ib := range ir.IntEqBranches(e) {
+						if ib.K != int64(i) {
+							continue
+						}
+						tgt := ib.If.Block().Succs[ib.Idx]
+						for _, x := range tgt.Instrs {
+							if isBuiltin("delete")(x) {
+								okDel = true
+							}
+						}
+					}
+				}
+			}
+		})
+		c.verdict(okDel, c.nm(fn)+" | the confirmation arm deletes from the pending set immediately", c.P.Pos(fn.Pos()), "delete in the receiving arm", "the arm receiving a confirmation no longer removes the transaction right away")
+	})
+
 	c.rule("C15.G1", "broadcastHandler: a transaction enters the pending set only if the broadcast returned no error or a Mempool error; a rejected broadcast is answered with its error; every request gets exactly one reply", func() {
 		fn := c.fn(fnBHandler)
 		isTxMap := func(v ssa.Value) bool {
